@@ -2,6 +2,7 @@ mod check;
 mod components;
 mod explore;
 mod known;
+mod live;
 mod monitors;
 mod plan;
 mod refconf;
@@ -88,15 +89,15 @@ fn real_main() {
                 seed,
                 targets: vec![],
                 rss_cap_gb: 40.0,
-                state_hook: None,
+                state_hook: if args.iter().any(|a| a == "--live") { Some(live::live_hook) } else { None },
             };
             let r = explore(s, &cfg);
             print_result(&r);
             if args.iter().any(|a| a == "--show") {
                 for f in &r.found {
-                    let p = shrink(s, &f.path, f.v.prop, &f.v.kind);
+                    let p = shrink(s, &f.path, f.v.prop, &f.v.kind, cfg.state_hook);
                     println!("--- shrunk path for {} [{}] ({} steps)", f.v.prop, f.v.kind, p.len());
-                    let rp = replay(s, &p, true);
+                    let rp = replay(s, &p, true, cfg.state_hook);
                     for l in rp.trace {
                         println!("{}", l);
                     }
